@@ -196,38 +196,7 @@ Section WithCrypto.
     do out <- put_u16 (mb ++ tb) 10 ((nextra + 1) mod 65536);
     Ok (out, mac).
 
-  (* ---------- vocabulary of the theorems ---------- *)
-  (* the 12 header octets *)
-  Definition hdr_wire (h : hdr) : bytes :=
-    u16 (h_id h) ++ u16 (h_bits h) ++ u16 (h_qd h) ++ u16 (h_an h) ++ u16 (h_ns h) ++ u16 (h_ar h).
-  Definition hdr_ok (h : hdr) : Prop :=
-    h_id h < 65536 /\ h_bits h < 65536 /\ h_qd h < 65536 /\ h_an h < 65536 /\ h_ns h < 65536 /\
-    h_ar h < 65536.
-  Definition set_id (h : hdr) (id : N) : hdr :=
-    Build_hdr id (h_bits h) (h_qd h) (h_an h) (h_ns h) (h_ar h).
-  Definition set_ar (h : hdr) (ar : N) : hdr :=
-    Build_hdr (h_id h) (h_bits h) (h_qd h) (h_an h) (h_ns h) ar.
-
-  (* additional records, all present and none of type TSIG *)
-  Fixpoint skip_plain (n : nat) (msg : bytes) (off : N) : res N :=
-    match n with
-    | O => Ok off
-    | S k =>
-      do (rr, o) <- unpack_rr rdata_chk true msg off;
-      if rv_type rr =? TypeTSIG then Err "tsig" else skip_plain k msg o
-    end.
-  (* strict framing: every counted question and record is present in full *)
-  Definition walk_strict (h : hdr) (msg : bytes) : res N :=
-    do o <- skip_questions (N.to_nat (h_qd h)) true msg 12;
-    do o <- skip_rrs rdata_chk (N.to_nat (h_an h)) true msg o;
-    do o <- skip_rrs rdata_chk (N.to_nat (h_ns h)) true msg o;
-    skip_plain (N.to_nat (h_ar h)) msg o.
-  (* [body] is a well-framed message body for the counts of [h], whatever the
-     header octets are (what Pack produces: nothing refers into the header),
-     without TSIG among its additional records *)
-  Definition wf_body (h : hdr) (body : bytes) : Prop :=
-    forall hd, lenN hd = 12 -> walk_strict h (hd ++ body) = Ok (12 + lenN body).
-
+  (* ---------- vocabulary of the theorems (hdr_wire, wf_body: Model/Wire.v) ---------- *)
   (* a TSIG whose fields fit their wire widths and whose length fields agree
      with the data *)
   Definition wf_tsig (t : tsig) : Prop :=
